@@ -359,14 +359,25 @@ fn gen_lit(rng: &mut Rng, ty: &str) -> (String, String) {
 fn case_json(rng: &mut Rng, jm: &JModel, directed: Option<usize>) -> Case {
     let conn = rusqlite::Connection::open_in_memory().unwrap();
     prepare_connection(&conn).unwrap();
-    let (ename, fs) = match directed { Some(0) | Some(1) => &jm.ents[0], Some(2) => &jm.ents[3], _ => &jm.ents[[0, 1, 2, 0, 1, 2, 0, 1, 2, 3][rng.below(10) as usize]] };
+    // directed 3..8: an explicit null on a field that is not nullable but has a default, one per scalar type
+    const NULL_DEFAULTED: [(usize, &str); 6] = [(1, "i"), (1, "b"), (1, "k"), (1, "j"), (0, "f"), (2, "s")];
+    let (ename, fs) = match directed { Some(0) | Some(1) => &jm.ents[0], Some(2) => &jm.ents[3], Some(d) => &jm.ents[NULL_DEFAULTED[d - 3].0],
+        _ => &jm.ents[[0, 1, 2, 0, 1, 2, 0, 1, 2, 3][rng.below(10) as usize]] };
+    let valid_lit = |ty: &str| -> (&'static str, &'static str) { match ty {
+        "TBool" => ("true", "LBool"), "TInt" => ("7", "LInt"), "TFloat" => ("2.5", "LFloat"), "TBase64" => ("\"YWJj\"", "(LStr true None)"),
+        "TJson" => ("\"[1]\"", "(LStr false (Some JArr))"), _ => ("\"v\"", "(LStr false None)") } };
     let mut text = format!("mutate {{ {} {{ ", ename);
+    // the same request with every explicit null replaced by a value of the field's type (to obtain, from the real
+    // code, the content the request would produce if its nulls were let through)
+    let mut text_forced = text.clone();
+    let mut nulled: Vec<u64> = vec![];
     let mut lits = vec![];
     for f in fs {
         let choice = match directed {
             Some(0) => if f.name == "s" { 10 } else if f.name == "i" || f.name == "j" { 1 } else { 0 },      // i: null, j: null (repaired: d170035, 8ac9d00)
             Some(1) => if f.name == "s" { 10 } else if f.name == "j" { 11 } else { 0 },     // j: "5"
-            Some(_) => 0,                                                                   // everything omitted: Json default "5"
+            Some(2) => 0,                                                                   // everything omitted: Json default "5"
+            Some(d) => if f.name == NULL_DEFAULTED[d - 3].1 { 1 } else if !f.nullable && f.default.is_none() { 12 } else { 0 },
             None => {
                 let c = rng.below(10);
                 if c <= 2 { if !f.nullable && f.default.is_none() && rng.chance(9, 10) { 5 } else { 0 } }
@@ -375,17 +386,39 @@ fn case_json(rng: &mut Rng, jm: &JModel, directed: Option<usize>) -> Case {
         };
         match choice {
             0 => {}                                                                         // omitted
-            1 => { text += &format!("{}: null ", f.name); lits.push(format!("({}, LNull)", gn(f.short))); }
-            10 => { text += &format!("{}: \"v\" ", f.name); lits.push(format!("({}, (LStr false None))", gn(f.short))); }
-            11 => { text += &format!("{}: \"5\" ", f.name); lits.push(format!("({}, (LStr false (Some JInt)))", gn(f.short))); }
-            _ => { let (t, c) = gen_lit(rng, f.ty); text += &format!("{}: {} ", f.name, t); lits.push(format!("({}, {})", gn(f.short), c)); }
+            1 => { text += &format!("{}: null ", f.name); lits.push(format!("({}, LNull)", gn(f.short)));
+                   text_forced += &format!("{}: {} ", f.name, valid_lit(f.ty).0); nulled.push(f.short); }
+            10 => { let t = format!("{}: \"v\" ", f.name); text += &t; text_forced += &t; lits.push(format!("({}, (LStr false None))", gn(f.short))); }
+            11 => { let t = format!("{}: \"5\" ", f.name); text += &t; text_forced += &t; lits.push(format!("({}, (LStr false (Some JInt)))", gn(f.short))); }
+            12 => { let (t, c) = valid_lit(f.ty); let t = format!("{}: {} ", f.name, t); text += &t; text_forced += &t; lits.push(format!("({}, {})", gn(f.short), c)); }
+            _ => { let (t, c) = gen_lit(rng, f.ty); let t = format!("{}: {} ", f.name, t); text += &t; text_forced += &t; lits.push(format!("({}, {})", gn(f.short), c)); }
         }
     }
     text += "} }";
+    text_forced += "} }";
     let mut obs;
     let mut stage = "parse";
     match MutationParser::parse(&text, &jm.dm) {
-        Err(_) => obs = vec![0, -1],
+        Err(_) => {
+            obs = vec![0, -1];
+            // refused: if the request is acceptable once its explicit nulls are replaced, hand the peer the content
+            // it would have produced WITH those nulls
+            if !nulled.is_empty() {
+                if let Ok(p) = MutationParser::parse(&text_forced, &jm.dm) {
+                    let mut params = Parameters::default();
+                    if let Ok(q) = MutationQuery::execute(&mut params, Arc::new(p), &conn) {
+                        stage = "refused for its nulls";
+                        let node = q.mutate_entities[0].node_to_mutate.node.as_ref().unwrap();
+                        let mut v: serde_json::Value = serde_json::from_str(node._json.as_ref().unwrap()).unwrap();
+                        for k in &nulled { v.as_object_mut().unwrap().insert(k.to_string(), serde_json::Value::Null); }
+                        let ent = jm.dm.get_entity(ename).unwrap();
+                        let remote = validate_json_for_entity(ent, &Some(v.to_string())).is_ok();
+                        obs = vec![0, remote as i64];
+                        for f in fs { obs.push(match v.get(f.short.to_string()) { None => -1, Some(x) => jkind(x).1 }); }
+                    }
+                }
+            }
+        }
         Ok(p) => {
             let mut params = Parameters::default();
             match MutationQuery::execute(&mut params, Arc::new(p), &conn) {
@@ -427,7 +460,7 @@ async fn main() {
     let n = scale(900, 9000);
     let mut case: u64 = 0;
     // directed: the three listed disagreement classes, then agreement on the plain shapes
-    for d in 0..3 { let mut r = rng.fork(); let mut c = case_json(&mut r, &jm, Some(d)); c.kind = "directed".into(); out.push(c); }
+    for d in 0..9 { let mut r = rng.fork(); let mut c = case_json(&mut r, &jm, Some(d)); c.kind = "directed".into(); out.push(c); }
     {
         // repaired by 25ca1a0 (was class 3): key 1 owns the row and has the own-rows right only; the reference it removes was written by key 2
         case += 1;
